@@ -88,6 +88,7 @@ type mLast struct {
 	respSid *sid   // state ID in an OK reply of CLOSE/OPEN_CONFIRM/OPEN_DOWNGRADE/LOCK/LOCKU
 	closed  *mOF
 	step    int
+	wrapped bool // the operation took a state ID seqid from 2^32-1 to 1
 }
 
 type mOO struct {
@@ -296,6 +297,7 @@ func (m *model) getOF(s sid, fh fhState, allowUnconfirmed bool) (*mOF, nfsv4.Nfs
 		return nil, nfsv4.NFS4ERR_BAD_STATEID
 	}
 	if st := cmpSeq(s.Seq, of.seq); st != nfsv4.NFS4_OK {
+		m.markSidMismatch(s.Seq, of.seq, st)
 		return nil, st
 	}
 	return of, nfsv4.NFS4_OK
@@ -313,6 +315,7 @@ func (m *model) getLF(s sid, fh fhState) (*mLF, nfsv4.Nfsstat4) {
 		return nil, nfsv4.NFS4ERR_BAD_STATEID
 	}
 	if st := cmpSeq(s.Seq, lf.seq); st != nfsv4.NFS4_OK {
+		m.markSidMismatch(s.Seq, lf.seq, st)
 		return nil, st
 	}
 	return lf, nfsv4.NFS4_OK
